@@ -1173,20 +1173,25 @@ Section Skip.
     split; [|split; [reflexivity|split; [|reflexivity]]].
     - eapply Reach_goto; [exact H|exact T| |cbn; lia].
       cbn [exec_units exec_unit]. rewrite L. reflexivity.
-    - unfold Inv. cbn [s_live s_top s_cap s_junk s_err s_p set_stk adv set_p]. rewrite !len_cons in *. repeat split; try lia. exact E.
+    - unfold Inv. cbn [s_live s_top s_cap s_junk s_err s_p set_stk adv set_p]. rewrite !len_cons in *.
+      repeat split; try lia; try exact E. intros C. specialize (MD C). lia.
   Qed.
 
   Lemma call_step : forall q q1 qret qtgt s sg b r, AtS s (b :: r) ->
     strans chk q b = ([UCall chk 0 (enc qret) (enc qtgt)], Some q1) -> Inv s sg ->
-    if md <=? len sg then EndsS q s (ErrAny s)
+    if chk && (md <=? len sg) then EndsS q s (ErrAny s)
     else exists s', ReachS q s qtgt s' /\ s_p s' = s_p s + 1 /\ Inv s' (enc qret :: sg) /\ frame s' = frame s.
   Proof.
     intros q q1 qret qtgt s sg b r H T (L & TP & CP & E & MD).
-    destruct (md <=? len sg) eqn:LIM.
-    - apply Z.leb_le in LIM. assert (TM : (s_top s =? md) = true) by (apply Z.eqb_eq; lia).
-      eapply Ends_step; [exact H|]. intros f _. rewrite T. cbn [fst snd exec_units exec_unit andb]. rewrite TM.
+    destruct (chk && (md <=? len sg)) eqn:LIM.
+    - apply andb_true_iff in LIM. destruct LIM as [C LIM]. specialize (MD C).
+      apply Z.leb_le in LIM. assert (TM : (s_top s =? md) = true) by (apply Z.eqb_eq; lia).
+      eapply Ends_step; [exact H|]. intros f _. rewrite T. cbn [fst snd exec_units exec_unit]. rewrite C, TM.
       cbn. do 3 eexists. split; [reflexivity|]. cbn. auto.
-    - apply Z.leb_gt in LIM. assert (TM : (s_top s =? md) = false) by (apply Z.eqb_neq; lia).
+    - assert (TM : chk && (s_top s =? md) = false).
+      { destruct chk; [|reflexivity]. cbn [andb] in *. specialize (MD eq_refl). apply Z.leb_gt in LIM. apply Z.eqb_neq. lia. }
+      assert (MD' : chk = true -> 1 + len sg <= md).
+      { intros C. rewrite C in LIM. cbn [andb] in LIM. specialize (MD C). apply Z.leb_gt in LIM. lia. }
       pose proof (len_nonneg (s_junk s)) as JN.
       destruct (s_top s + 1 >=? s_cap s) eqn:G.
       + (* the stack slice is full: it is grown by one *)
@@ -1203,15 +1208,17 @@ Section Skip.
         exists (adv (set_stk s (s_top s + 1) (s_cap s + (1 + s_top s - s_cap s)) (enc qret :: s_live s) []) 1).
         split; [|split; [reflexivity|split; [|reflexivity]]].
         * eapply Reach_goto; [exact H|exact T| |cbn; lia].
-          cbn [exec_units exec_unit andb]. rewrite TM, G, N0, J1. reflexivity.
-        * unfold Inv. cbn [s_live s_top s_cap s_junk s_err s_p set_stk adv set_p]. rewrite !len_cons. rewrite L. change (len (@nil Z)) with 0. repeat split; try lia. exact E.
+          cbn [exec_units exec_unit]. rewrite TM, G, N0, J1. reflexivity.
+        * unfold Inv. cbn [s_live s_top s_cap s_junk s_err s_p set_stk adv set_p]. rewrite !len_cons. rewrite L.
+          change (len (@nil Z)) with 0. repeat split; try lia; try exact E. exact MD'.
       + assert (G' : s_top s + 1 < s_cap s) by (rewrite Z.geb_leb in G; apply Z.leb_gt in G; lia).
         destruct (s_junk s) as [|x j] eqn:J; [change (len (@nil Z)) with 0 in CP; lia|].
         exists (adv (set_stk s (s_top s + 1) (s_cap s) (enc qret :: s_live s) j) 1).
         split; [|split; [reflexivity|split; [|reflexivity]]].
         * eapply Reach_goto; [exact H|exact T| |cbn; lia].
-          cbn [exec_units exec_unit andb]. rewrite TM, G, J. reflexivity.
-        * unfold Inv. cbn [s_live s_top s_cap s_junk s_err s_p set_stk adv set_p]. rewrite !len_cons in *. rewrite L. repeat split; try lia. exact E.
+          cbn [exec_units exec_unit]. rewrite TM, G, J. reflexivity.
+        * unfold Inv. cbn [s_live s_top s_cap s_junk s_err s_p set_stk adv set_p]. rewrite !len_cons in *. rewrite L.
+          repeat split; try lia; try exact E. exact MD'.
   Qed.
 
   (** *** what a piece of grammar does: [Good q s l sg r q']: from state [q] at input [l] with call
@@ -1249,8 +1256,13 @@ Section Skip.
     seof q = eof_units c /\
     forall b r, l = b :: r -> is_ws b = false /\ strans chk q b = strans chk (c, PNext) b.
 
+  (** without the depth check ([chk = false]) the reference limit must be out of reach *)
+  Definition Lim (sg : list Z) (l : list byte) : Prop := chk = false -> len sg + len l <= md.
+  Lemma Lim_shorter : forall sg l l', Lim sg l -> (length l' <= length l)%nat -> Lim sg l'.
+  Proof. intros sg l l' L N C. specialize (L C). unfold len in *. lia. Qed.
+
   Definition ItemOK (c : ctx) (item : list byte -> option nat) (sg : list Z) (bound : nat) : Prop :=
-    forall q l s, (length l < bound)%nat -> AtS s l -> Inv s sg -> IStart c q l ->
+    forall q l s, (length l < bound)%nat -> AtS s l -> Inv s sg -> IStart c q l -> Lim sg l ->
                   Good q s l sg (item l) (c, PAfter).
 
   Definition body (c : ctx) : Prop := c = CArr \/ c = CObj.
@@ -1267,10 +1279,10 @@ Section Skip.
 
   Lemma items_ok : forall c item sg qret bound, body c -> ItemOK c item (enc qret :: sg) bound ->
     forall k q l s, (length l < k)%nat -> (length l < bound)%nat -> AtS s l -> Inv s (enc qret :: sg) ->
-                    IStart c q l -> Good q s l sg (items k item (closer c) l) qret.
+                    IStart c q l -> Lim (enc qret :: sg) l -> Good q s l sg (items k item (closer c) l) qret.
   Proof.
-    intros c item sg qret bound BC IO. induction k as [|k IH]; intros q l s LK LB H I IS; [lia|].
-    cbn [items]. pose proof (IO q l s LB H I IS) as G.
+    intros c item sg qret bound BC IO. induction k as [|k IH]; intros q l s LK LB H I IS LM; [lia|].
+    cbn [items]. pose proof (IO q l s LB H I IS LM) as G.
     destruct (item l) as [n|]; [|exact G]. destruct G as (N & s1 & R1 & P1 & I1 & F1).
     pose proof (At_move _ _ _ _ H P1 N) as H1.
     set (l1 := skipn n l) in *. set (w := ws l1).
@@ -1295,7 +1307,9 @@ Section Skip.
         assert (IS4 : IStart c (c, PNext) (skipn w1 r1)).
         { split; [destruct BC as [->| ->]; reflexivity|]. intros b r E. split; [|reflexivity]. eapply ws_next. exact E. }
         assert (I4 : Inv (adv (adv (adv s1 w) 1) w1) (enc qret :: sg)) by (repeat apply Inv_adv; exact I1).
-        pose proof (IH (c, PNext) (skipn w1 r1) _ ltac:(lia) ltac:(lia) H4 I4 IS4) as G.
+        assert (LS4 : (length (skipn w1 r1) <= length l)%nat) by lia.
+        pose proof (IH (c, PNext) (skipn w1 r1) _ ltac:(lia) ltac:(lia) H4 I4 IS4
+                       (Lim_shorter _ l _ LM LS4)) as G.
         assert (SK : skipn (n + w + 1 + w1) l = skipn w1 r1).
         { replace (n + w + 1 + w1)%nat with (w1 + (1 + (w + n)))%nat by lia.
           rewrite <- !skipn_skipn. fold l1. rewrite K. reflexivity. }
@@ -1331,10 +1345,10 @@ Section Skip.
   Qed.
 
   Lemma container_ok : forall c item sg qret f, body c -> ItemOK c item (enc qret :: sg) f ->
-    forall r s, (length r < f)%nat -> AtS s r -> Inv s (enc qret :: sg) ->
+    forall r s, (length r < f)%nat -> AtS s r -> Inv s (enc qret :: sg) -> Lim (enc qret :: sg) r ->
                 Good (c, PStart) s r sg (container f item (closer c) r) qret.
   Proof.
-    intros c item sg qret f BC IO r s LF H I. unfold container.
+    intros c item sg qret f BC IO r s LF H I LM. unfold container.
     set (w := ws r).
     pose proof (ws_loop md chk start data h (c, PStart) (ws_stay c PStart BC ltac:(auto)) r s H) as R1. fold w in R1.
     pose proof (At_adv data s r w H (ws_le r)) as H1.
@@ -1356,7 +1370,8 @@ Section Skip.
           split; [exact NW|]. apply start_step; auto. }
         assert (I1 : Inv (adv s w) (enc qret :: sg)) by (apply Inv_adv; exact I).
         pose proof (items_ok c item sg qret f BC IO f (c, PStart) (c0 :: r1) (adv s w)
-                             ltac:(cbn [length]; lia) ltac:(cbn [length]; lia) H1 I1 IS) as G.
+                             ltac:(cbn [length]; lia) ltac:(cbn [length]; lia) H1 I1 IS
+                             (Lim_shorter _ r (c0 :: r1) LM ltac:(cbn [length]; lia))) as G.
         rewrite <- K in G at 1.
         apply (Good_pre (c, PStart) s r (c, PStart) (adv s w) w sg _ qret).
         * exact R1.
@@ -1368,7 +1383,7 @@ Section Skip.
 
   (** *** the main induction: a value in a strict context *)
   Definition ValueOK (f : nat) : Prop :=
-    forall sg c q l s, (length l < f)%nat -> strict c -> AtS s l -> Inv s sg -> seof q = eof_units c ->
+    forall sg c q l s, (length l < f)%nat -> strict c -> AtS s l -> Inv s sg -> Lim sg l -> seof q = eof_units c ->
       (forall b r, l = b :: r -> strans chk q b = value_start chk c b) ->
       Good q s l sg (value_len md f (len sg) l) (c, after c).
 
@@ -1377,8 +1392,8 @@ Section Skip.
 
   Lemma array_items : forall f sg qret, ValueOK f -> ItemOK CArr (value_len md f (len sg + 1)) (enc qret :: sg) f.
   Proof.
-    intros f sg qret V q l s L H I (SE & ST).
-    pose proof (V (enc qret :: sg) CArr q l s L ltac:(right; left; reflexivity) H I SE) as G.
+    intros f sg qret V q l s L H I (SE & ST) LM.
+    pose proof (V (enc qret :: sg) CArr q l s L ltac:(right; left; reflexivity) H I LM SE) as G.
     rewrite len_cons, Z.add_comm in G. apply G.
     intros b r E. destruct (ST b r E) as [W T]. rewrite T. apply next_value. exact W.
   Qed.
@@ -1396,7 +1411,7 @@ Section Skip.
   Lemma object_items : forall f sg qret, ValueOK f ->
     ItemOK CObj (member (value_len md f (len sg + 1))) (enc qret :: sg) f.
   Proof.
-    intros f sg qret V q l s L H I (SE & ST). unfold member, string_tok.
+    intros f sg qret V q l s L H I (SE & ST) LM. unfold member, string_tok.
     destruct l as [|b r].
     - apply (Ends_Of_Any CObj). apply fail_eof; [exact H|exact SE].
     - destruct (ST b r eq_refl) as [W T].
@@ -1439,7 +1454,9 @@ Section Skip.
       pose proof (At_adv data _ r3 w1 H4 (ws_le r3)) as H5. rewrite adv_adv in H5.
       assert (I5 : Inv (adv s (1 + kb + w + 1 + w1)) (enc qret :: sg)) by (apply Inv_adv; exact I).
       assert (L5 : (length (skipn w1 r3) < f)%nat) by (rewrite skipn_length; cbn [length] in L; lia).
-      pose proof (V (enc qret :: sg) CObj (CObj, PVal) (skipn w1 r3) _ L5 ltac:(right; right; reflexivity) H5 I5 eq_refl) as G.
+      assert (LM5 : Lim (enc qret :: sg) (skipn w1 r3)).
+      { apply (Lim_shorter _ (b :: r) _ LM). rewrite skipn_length. cbn [length]. lia. }
+      pose proof (V (enc qret :: sg) CObj (CObj, PVal) (skipn w1 r3) _ L5 ltac:(right; right; reflexivity) H5 I5 LM5 eq_refl) as G.
       rewrite len_cons, Z.add_comm in G.
       assert (VS : forall b0 r0, skipn w1 r3 = b0 :: r0 -> strans chk (CObj, PVal) b0 = value_start chk CObj b0).
       { intros b0 r0 E. pose proof (ws_next _ _ _ E) as W0. cbn. rewrite W0. reflexivity. }
@@ -1467,7 +1484,7 @@ Section Skip.
 
   Theorem value_ok : forall f, ValueOK f.
   Proof.
-    induction f as [|f IH]; intros sg c q l s L SC H I SE VS; [lia|].
+    induction f as [|f IH]; intros sg c q l s L SC H I LM SE VS; [lia|].
     cbn [value_len].
     destruct l as [|b r].
     { apply (Ends_Of_Any c). apply fail_eof; [exact H|exact SE]. }
@@ -1478,10 +1495,17 @@ Section Skip.
               ItemOK sub item (enc (c, after c) :: sg) f ->
               Good q s (b :: r) sg (if md <=? len sg then None else option_map S (container f item (closer sub) r)) (c, after c)).
     { intros sub item SB T IO. pose proof (call_step q _ (c, after c) (sub, PStart) s sg b r H T I) as CS.
-      destruct (md <=? len sg); [exact CS|].
+      assert (LME : chk = false -> (md <=? len sg) = false).
+      { intros C. specialize (LM C). rewrite len_cons in LM. pose proof (len_nonneg r). apply Z.leb_gt. lia. }
+      assert (LMR : Lim (enc (c, after c) :: sg) r).
+      { intros C. specialize (LM C). rewrite !len_cons in *. lia. }
+      destruct (md <=? len sg) eqn:LE.
+      { assert (C : chk = true) by (apply Bool.not_false_is_true; intro C0; specialize (LME C0); discriminate).
+        replace (chk && true) with true in CS by (rewrite C; reflexivity). exact CS. }
+      rewrite andb_false_r in CS.
       destruct CS as (s1 & R1 & P1 & I1 & F1).
       assert (H1' : AtS s1 r) by (apply (At_move s s1 (b :: r) 1 H P1); cbn; lia).
-      pose proof (container_ok sub item sg (c, after c) f SB IO r s1 ltac:(lia) H1' I1) as G.
+      pose proof (container_ok sub item sg (c, after c) f SB IO r s1 ltac:(lia) H1' I1 LMR) as G.
       apply (Good_pre q s (b :: r) (sub, PStart) s1 1 sg _ (c, after c)); auto. cbn. lia. }
     destruct (isb 91 b) eqn:A.
     { apply (NEST CArr); [auto| |apply array_items; exact IH].
@@ -1495,14 +1519,14 @@ Section Skip.
   Qed.
 
   (** *** the top level *)
-  Lemma skip_run : forall stack dst, start = (CTop, PStart) ->
+  Lemma skip_run : forall stack dst, chk = true -> start = (CTop, PStart) ->
     match skip_ref_md md data with
     | Some n => 0 <= n <= len data /\
                 exists s, prun md (spec_machine chk start) data h stack dst = ODone n None s /\ s_dst s = dst
     | None => exists p e s, prun md (spec_machine chk start) data h stack dst = ODone p (Some e) s
     end.
   Proof.
-    intros stack dst ST. set (s0 := init_st stack dst).
+    intros stack dst CK ST. set (s0 := init_st stack dst).
     pose proof (At_init data stack dst) as H0. fold s0 in H0.
     assert (TOPWS : forall b, is_ws b = true -> strans chk (CTop, PStart) b = ([], Some (CTop, PStart))).
     { intros b W. cbn. rewrite W. reflexivity. }
@@ -1511,7 +1535,7 @@ Section Skip.
     assert (I0 : Inv (adv s0 (ws data)) []).
     { unfold Inv. cbn. unfold len. cbn. repeat split; auto; lia. }
     assert (L : (length (skipn (ws data) data) < length data + 2)%nat) by (rewrite skipn_length; lia).
-    pose proof (value_ok (length data + 2) [] CTop (CTop, PStart) _ _ L ltac:(left; reflexivity) H1 I0 eq_refl) as G.
+    pose proof (value_ok (length data + 2) [] CTop (CTop, PStart) _ _ L ltac:(left; reflexivity) H1 I0 ltac:(intro C; congruence) eq_refl) as G.
     assert (VS : forall b r, skipn (ws data) data = b :: r -> strans chk (CTop, PStart) b = value_start chk CTop b).
     { intros b r E. pose proof (ws_next _ _ _ E) as W. cbn. rewrite W. reflexivity. }
     specialize (G VS). change (len (@nil Z)) with 0 in G.
@@ -1538,7 +1562,7 @@ Theorem skip_spec_correct_md : forall md data h stack dst, 0 <= md ->
   | Some n => 0 <= n <= len data /\ exists s, prun md skip_spec data h stack dst = ODone n None s /\ s_dst s = dst
   | None => exists p e s, prun md skip_spec data h stack dst = ODone p (Some e) s
   end.
-Proof. intros md data h stack dst M. apply (skip_run md (CTop, PStart) data h M stack dst eq_refl). Qed.
+Proof. intros md data h stack dst M. apply (skip_run md true (CTop, PStart) data h M stack dst eq_refl eq_refl). Qed.
 
 Theorem skip_spec_correct : forall data stack,
   match skip_ref data with
